@@ -29,7 +29,7 @@ DIMS = {
     "opt_host": ["absent", "virtual.example:9", None, ""],
     "origin": ["absent", None, "https://app.example"],
     "suppress_origin": [False, True],
-    "subprotocols": ["absent", ["chat", "v2"], None],
+    "subprotocols": ["absent", ["chat", "v2"], None, ["v2.b", "v1.b", "chat"]],   # the caller's order is a preference order (not sorted)
     "header": ["absent", "list", "dict", "dict-key-version", "dict-none-value", "empty-list"],
     "connection": ["absent", "keep-alive, Upgrade", None],
     "cookie": ["absent", None, "c=1", "sid=1"],
